@@ -14,10 +14,10 @@ import (
 // zeroCtxExempt lists zero-declared context variables whose reads were shown by hand to
 // never deliver the zero value; one symbol each, with the reason.
 var zeroCtxExempt = map[string]string{
-	"ro.MergeAll/parentCtx":              "the live-subscription counter starts at 1 for the outer source, so it reaches 0 (the only guarded read) only after the outer completion slot stored parentCtx",
-	"ro.RepeatWith/lastCtx":              "Wait returns either after the completion slot stored lastCtx or after the error slot closed the destination, in which case the trailing Complete is dropped",
-	"ro.OnErrorResumeNextWith/lastCtx":   "nothing can close the composite during the loop, so every attempt ends through the error or completion slot and both store lastCtx",
-	"ro.CollectWithContext/lastCtx":      "returned to the caller, not delivered to a callback",
+	"ro.MergeAll/parentCtx":            "the live-subscription counter starts at 1 for the outer source, so it reaches 0 (the only guarded read) only after the outer completion slot stored parentCtx",
+	"ro.RepeatWith/lastCtx":            "Wait returns either after the completion slot stored lastCtx or after the error slot closed the destination, in which case the trailing Complete is dropped",
+	"ro.OnErrorResumeNextWith/lastCtx": "nothing can close the composite during the loop, so every attempt ends through the error or completion slot and both store lastCtx",
+	"ro.CollectWithContext/lastCtx":    "returned to the caller, not delivered to a callback",
 }
 
 func ruleCtxProvenance() check.Rule {
@@ -374,7 +374,7 @@ func C09() *check.Property {
 			"(through inlined helpers and local closures), plus the same calls in the subjects, the subscriber and the connectable observable. Each operand is traced through assignments, tuple fields (lo.T2), slices/channels of tuples, " +
 			"atomic.Value, struct fields, closure and helper parameters to its origins; allowed origins are the subscriber context, the slot context, user-callback results and context.With* of those; Background/TODO/nil and " +
 			"unguarded zero values are violations, unknown forms are undecided (fail closed). A who-may-call rule additionally confines context.Background()/TODO() to the definitional entry points, hooks and guarded seeds.",
-		NotDecided: "what user callbacks return; whether a context-typed value stored by an allowed origin is the *right* one among several allowed ones (e.g. last vs. first item's context).",
+		NotDecided:  "what user callbacks return; whether a context-typed value stored by an allowed origin is the *right* one among several allowed ones (e.g. last vs. first item's context).",
 		Assumptions: []string{"the upstream source itself honours the property (induction over the pipeline)", "zero-value exemptions listed in the checker (4 symbols) were argued by hand"},
 		Floors:      map[string]int{"ctx_sinks": 600, "ctx_sinks_core": 40, "fresh_context_sites": 30},
 		Controls:    map[string]string{"zz_verif_controls_c09.go": roControl(controlsC09)},
